@@ -71,7 +71,7 @@ fn check_main(a: &Args) -> i32 {
     a2.map.insert("replay-dir".into(), replay_dir);
     let evidence = PathBuf::from(a.get("evidence", verif.join("evidence/C16.json").to_str().unwrap()));
     let shards = a.u64("shards", 16);
-    let runs = a.u64("runs", if tier == "thorough" { 8000 } else { 320 });
+    let runs = a.u64("runs", if tier == "thorough" { 12000 } else { 480 });
     println!("VERIF_SEED={seed} tier={tier} runs={runs} shards={shards}");
 
     let t0 = seams::real_now_s();
@@ -103,11 +103,24 @@ fn check_main(a: &Args) -> i32 {
         }
     }
 
+    // E4: Miri (thorough only; corroborating, independent of symbol interposition)
+    let mut e4_violations: Vec<J> = vec![];
+    if tier == "thorough" && a.get("e4", "1") != "0" {
+        match e4::run(&a2, seed) {
+            Ok(r) => {
+                engines.push(r.engine_json.clone());
+                coverage.put("e4", r.coverage.clone());
+                e4_violations = r.violations;
+            },
+            Err(e) => e3_errors.push(format!("E4: {e}")),
+        }
+    }
+
     let known = batch::load_known(&verif.join("known_findings.json"));
     let mut unknown = 0usize;
     let mut unminimised = 0usize;
     let mut known_hits: Vec<String> = vec![];
-    for v in b.violations.iter().chain(e3_violations.iter()) {
+    for v in b.violations.iter().chain(e3_violations.iter()).chain(e4_violations.iter()) {
         let sig = v.get("signature").cloned().unwrap_or(J::Null);
         match batch::matches_known(&known, &sig) {
             Some(what) => {
